@@ -266,6 +266,11 @@ func (st *State) havocLoop(f *Frame, body map[*ssa.BasicBlock]bool, ms *modSet) 
 					ks, vs := st.eng.te.SortOf(mt.Key()), st.eng.te.SortOf(mt.Elem())
 					memSorts[mapHasName(ks, vs)] = ArrSort(SRef, ArrSort(ks, SBool))
 					memSorts[mapValName(ks, vs)] = ArrSort(SRef, ArrSort(ks, vs))
+				case *ssa.Send:
+					if gs, gv := st.eng.cs.Ghosts["sends"], st.eng.cs.Ghosts["sentv"]; gs != nil && gv != nil {
+						_, memSorts["ghost_sends"] = st.ghostType(gs)
+						_, memSorts["ghost_sentv"] = st.ghostType(gv)
+					}
 				case ssa.CallInstruction:
 					cc := x.Common()
 					if b, ok := cc.Value.(*ssa.Builtin); ok {
@@ -641,8 +646,24 @@ func (st *State) step(f *Frame, ins ssa.Instruction) []*State {
 		f.regs[x] = st.sel(x)
 	case *ssa.Send:
 		ch := st.eval(x.Chan)
-		_ = ch
-		st.res.note("channel send treated as no-op")
+		v := st.eval(x.X)
+		// ghost bookkeeping: sends[ch] counts the values THIS execution sent on ch and
+		// sentv[ch][k] is the k-th of them (pointer-valued channels only); blocking,
+		// buffering and the receiver are not modelled
+		gs, gv := st.eng.cs.Ghosts["sends"], st.eng.cs.Ghosts["sentv"]
+		if gs != nil && gv != nil && ch.Term != "" && v.S == SRef {
+			_, ss := st.ghostType(gs)
+			_, sv := st.ghostType(gv)
+			st.frameCheckEntry(x, modEntry{kind: "ghost", name: "ghost_sends"}, "frame:"+st.eng.ordinal(f.fn, x, "send"))
+			cur := st.heapGet(st.heap, "ghost_sends", ss)
+			curv := st.heapGet(st.heap, "ghost_sentv", sv)
+			n := app("select", cur, ch.Term)
+			st.heap.m["ghost_sentv"] = st.define("ghost_sentv", app("store", curv, ch.Term, app("store", app("select", curv, ch.Term), n, v.Term)), sv)
+			st.heap.m["ghost_sends"] = st.define("ghost_sends", app("store", cur, ch.Term, app("bvadd", n, bvInt(1, 64))), ss)
+			st.res.note("channel send recorded in the ghosts sends/sentv (no blocking, no receiver)")
+		} else {
+			st.res.note("channel send treated as no-op")
+		}
 	case *ssa.RunDefers:
 		return st.runDefers(f)
 	case *ssa.Defer:
